@@ -61,6 +61,13 @@ def build(args):
             ps = parse_all(s, top, sub)
             tree = tree_json(abstract_tree(cz, ps[0])) if len(ps) == 1 else {"m": "?", "leaf": True, "kids": []}
             reads.append({"pat": top + " | " + sub, "string": s, "nparses": len(ps), "tree": tree})
+        # a pattern pair that is refused (valid first pattern, invalid second one) leaves the format in force as it was
+        for bad in (("{mother} ==> {daughters}", "({mother})"), ("{mother} ~> {daughters}", "<{mother} ~> {daughters} {x}>")):
+            try:
+                with DescriptorFormat(*bad):
+                    pass
+            except Exception:  # noqa: BLE001
+                pass
         # the plain one-line descriptor (no format block active any more): round brackets, read back the same way
         top, sub = cio.PATTERNS[0]
         s = cio.build_chain(cz, c, rng=rng, zero_bf=zb).to_string()
